@@ -66,8 +66,8 @@ def load_findings():
 
 
 # ------------------------------------------------------------------ worker
-def solve_inprocess(ob, timeout_ms, use_cvc5=True):
-    """z3 E-matching only (short), then z3 with MBQI, then cvc5 on the SMT-LIB text."""
+def solve_text(text, timeout_ms, use_cvc5=True):
+    """z3 E-matching only (short), then z3 with MBQI, then cvc5, on the SMT-LIB text of one VC."""
     t0 = time.time()
     res, model, backend, reason = "unknown", None, "z3", ""
     for mbqi, tmo in ((False, min(timeout_ms, 4000)), (True, timeout_ms)):
@@ -75,9 +75,7 @@ def solve_inprocess(ob, timeout_ms, use_cvc5=True):
         s.set("timeout", tmo)
         if not mbqi:
             s.set("smt.mbqi", False)
-        for a in ob.assumptions:
-            s.add(a)
-        s.add(z3.Not(ob.goal))
+        s.from_string(text)
         r = s.check()
         if r == z3.unsat:
             res, backend = "discharged", "z3" if not mbqi else "z3-mbqi"
@@ -87,7 +85,7 @@ def solve_inprocess(ob, timeout_ms, use_cvc5=True):
             break
         reason = s.reason_unknown()
     if res == "unknown" and use_cvc5:
-        r3, _t, reason3 = smt._solve_cvc5(smt.to_smt2(ob), timeout_ms * 3)
+        r3, _t, reason3 = smt._solve_cvc5(text, timeout_ms * 3)
         if r3 == "unsat":
             res, backend = "discharged", "cvc5"
         elif r3 == "sat":
@@ -97,21 +95,18 @@ def solve_inprocess(ob, timeout_ms, use_cvc5=True):
     return res, model, backend, reason, time.time() - t0
 
 
-def verify_unit(job):
-    """One (contract, signature case): symbolic execution, discharge, replay of refutations."""
-    target, sc_index, pid, tier, exclusions, seed = job
+def gen_unit(job):
+    """One (contract, signature case, input case): symbolic execution -> SMT-LIB texts of the VCs."""
+    target, sc_index, pid, tier, exclusions, seed, case = job
     _setup_path()
     load_specs()
     con = REGISTRY[target]
     sc = sigcases(con)[sc_index]
-    out = {
-        "target": target, "case": None, "obligations": [], "undecided": None, "paths": 0,
-        "assumptions": [], "src": None, "gen_s": 0.0,
-    }
-    timeout_ms = 10000 if tier == "quick" else 60000
+    out = {"target": target, "sc_index": sc_index, "case": None, "vcs": [], "undecided": None, "paths": 0,
+           "assumptions": [], "src": None, "gen_s": 0.0, "cuts": []}
     t0 = time.time()
     try:
-        en = Engine(con, sc, prop_filter={pid}, exclusions=exclusions.get(target))
+        en = Engine(con, sc, prop_filter={pid}, exclusions=exclusions.get(target), case=case)
         out["case"] = en.case_label
         out["src"] = en.src_info
         en.run()
@@ -123,35 +118,44 @@ def verify_unit(job):
         return out
     out["gen_s"] = time.time() - t0
     out["paths"] = len(en.paths)
+    out["cuts"] = sorted(en.cuts)
     out["assumptions"] = sorted(en.assumption_notes)
     for ob in en.obligations.values():
         if pid not in ob.props:
             continue
-        res, model, backend, reason, t = solve_inprocess(ob, timeout_ms)
-        rec = {
-            "name": ob.name, "kind": ob.kind, "status": res, "backend": backend, "time": round(t, 3),
-            "size": len(ob.assumptions), "reason": reason if res == "unknown" else "",
-        }
-        if res == "refuted":
-            rec["replay"] = replay_refutation(con, sc, ob, model, seed)
-        elif res == "unknown":
-            # the solver gave no verdict: look for a concrete witness of a contract failure of
-            # this function natively (any clause); only a replayed witness makes it a violation
-            rp = replay_refutation(con, sc, ob, None, seed, any_label=True)
-            if rp.get("reproduced"):
-                rec["status"] = "refuted"
-                rec["backend"] = "native-search"
-                rec["replay"] = rp
-        out["obligations"].append(rec)
+        out["vcs"].append({"name": ob.name, "kind": ob.kind, "size": len(ob.assumptions), "text": smt.to_smt2(ob)})
     return out
 
 
-def replay_refutation(con, sc, ob, model, seed, any_label=False):
+def solve_unit(job):
+    """Discharge one VC; on sat / unknown look for a replayable input of the real function."""
+    name, kind, size, text, tier, target, sc_index, seed = job
+    _setup_path()
+    load_specs()
+    timeout_ms = 10000 if tier == "quick" else 60000
+    res, model, backend, reason, t = solve_text(text, timeout_ms)
+    rec = {"name": name, "kind": kind, "status": res, "backend": backend, "time": round(t, 3), "size": size,
+           "reason": reason if res == "unknown" else ""}
+    if res in ("refuted", "unknown"):
+        con = REGISTRY[target]
+        sc = sigcases(con)[sc_index]
+        rp = replay_refutation(con, sc, name, model, seed, any_label=(res == "unknown"))
+        if res == "refuted":
+            rec["replay"] = rp
+        elif rp.get("reproduced"):
+            # no verdict from the solver, but a concrete witness of a contract failure of this function
+            rec["status"] = "refuted"
+            rec["backend"] = "native-search"
+            rec["replay"] = rp
+    return rec
+
+
+def replay_refutation(con, sc, obname, model, seed, any_label=False):
     """Concretise the counter-model, run the real function, evaluate the clause natively.
     Falls back to a small-scope native search for a witness of the same clause."""
-    info = {"obligation": ob.name, "reproduced": False, "input": None, "observed": None, "model": None,
+    info = {"obligation": obname, "reproduced": False, "input": None, "observed": None, "model": None,
             "search": None}
-    label = ob.name.split("/")[1] if "/" in ob.name else ob.name
+    label = obname.split("/")[1] if "/" in obname else obname
     if model is not None:
         info["model"] = str(model)[:2000]
         try:
@@ -217,7 +221,7 @@ def crosscheck_unit(job):
             n += 1
             for f in nr.failures:
                 fails.append({"label": f[0], "detail": f[1], "input": repr(argvals)[:500], "observed": nr.outcome,
-                              "argvals": _jsonable(argvals)})
+                              "argvals": _jsonable(argvals), "in_case": nr.case})
             if n >= cap or len(fails) > 200:
                 break
     except NotImplementedError as e:
@@ -250,29 +254,43 @@ def run_property(pid, tier="quick", seed=0, jobs=None):
     cons = [c for c in REGISTRY.values() if pid in c.props and not c.trusted]
     jobs_list = []
     bjobs = []
+    skipped_cases = []
     for con in cons:
         for i, _sc in enumerate(sigcases(con)):
             if con.bounded is not None:
                 bjobs.append((con.target, i, 200 if tier == "quick" else 8000, seed))
             else:
-                jobs_list.append((con.target, i, pid, tier, exclusions, seed))
+                for case in (list(con.cases) or [None]):
+                    if case is not None and case in exclusions.get(con.target, {}).get("*", []):
+                        skipped_cases.append(f"{con.target} case:{case} (listed known finding: not explored, witness replayed)")
+                        continue
+                    jobs_list.append((con.target, i, pid, tier, exclusions, seed, case))
     nproc = jobs or min(16, os.cpu_count() or 1)
     results = []
     cross = []
     count = 50 if tier == "quick" else 2000
-    cjobs = [(j[0], j[1], count, seed) for j in jobs_list] + bjobs
+    cjobs = sorted({(j[0], j[1], count, seed) for j in jobs_list}) + bjobs
     if cjobs:
         with ProcessPoolExecutor(max_workers=nproc) as ex:
-            futs = [ex.submit(verify_unit, j) for j in jobs_list]
+            futs = [ex.submit(gen_unit, j) for j in jobs_list]
             cfuts = [ex.submit(crosscheck_unit, j) for j in cjobs]
+            sfuts = []
             for f in futs:
-                results.append(f.result())
+                u = f.result()
+                u["obligations"] = []
+                results.append(u)
+                for vc in u.pop("vcs"):
+                    sfuts.append((u, ex.submit(solve_unit, (vc["name"], vc["kind"], vc["size"], vc["text"], tier,
+                                                            u["target"], u["sc_index"], seed))))
+            for u, f in sfuts:
+                u["obligations"].append(f.result())
             for f in cfuts:
                 cross.append(f.result())
     extras = []
     extras.append(run_lemmas(pid, tier))
     for fn in EXTRA.get(pid, []):
         extras.append(fn({"pid": pid, "tier": tier, "seed": seed, "known": known}))
+    extras.append({"assumptions": skipped_cases})
     return assemble(pid, tier, seed, cons, results, cross, extras, known, findings, time.time() - t_start)
 
 
@@ -339,6 +357,8 @@ def assemble(pid, tier, seed, cons, results, cross, extras, known, findings, wal
             undecided.append(f"{r['target']}[{r['case']}]: {r['undecided']}")
             continue
         functions.append({"target": r["target"], "case": r["case"], "paths": r["paths"], **(r["src"] or {})})
+        for c in r.get("cuts", []):
+            assumptions.add(f"{r['target']}[{r['case']}]: {c} (paths beyond the cut are not covered: bounded)")
         assumptions.update(r["assumptions"])
         for ob in r["obligations"]:
             obligations.append(ob)
@@ -355,9 +375,9 @@ def assemble(pid, tier, seed, cons, results, cross, extras, known, findings, wal
     seen_native = set()
     for c in cross:
         for f in c["fails"]:
-            if (c["target"], f["label"]) in seen_native:
+            if (c["target"], f["label"], f.get("in_case")) in seen_native:
                 continue
-            seen_native.add((c["target"], f["label"]))
+            seen_native.add((c["target"], f["label"], f.get("in_case")))
             con = REGISTRY[c["target"]]
             labels = {cl.label: cl for cl in con.ensures}
             lab = f["label"].split(":", 1)[1] if ":" in f["label"] else f["label"]
@@ -366,7 +386,8 @@ def assemble(pid, tier, seed, cons, results, cross, extras, known, findings, wal
                 continue
             violations.append({"kind": "native", "name": f"{c['target']}/{f['label']}", "replay": {
                 "reproduced": True, "input": f["input"], "observed": f["observed"], "failure": [f["label"], f["detail"]],
-                "argvals": f["argvals"], "obligation": f"{c['target']}/{f['label']} (native cross-check)"}})
+                "argvals": f["argvals"], "in_case": f.get("in_case"),
+                "obligation": f"{c['target']}/{f['label']} (native cross-check)"}})
     extra_obl = 0
     extra_dis = 0
     bounded = []
@@ -487,6 +508,11 @@ def classify(v, known):
         tgt, clause = k.get("target"), k.get("clause")
         if tgt and clause and name.startswith(tgt) and f"/{clause}" in name and not k.get("case"):
             return k
+        if tgt and k.get("case") and name.startswith(tgt) and v.get("kind") == "native":
+            # a native failure of a function with a listed input class: known only inside the class
+            rp = v.get("replay") or {}
+            if rp.get("in_case") == k["case"]:
+                return k
     return None
 
 
